@@ -775,23 +775,30 @@ class Program:
         return CallRes(how="dynamic")
 
     def dict_literal(self, fi: FuncInfo, e: ast.AST) -> Optional[ast.Dict]:
-        """The dict display *e* denotes: itself, or the module / class level constant it names."""
-        if isinstance(e, ast.Dict):
-            return e
+        """The dict display *e* denotes: itself, or the module / class level constant it names (also behind a
+        read-only or copying wrapper: ``MappingProxyType({...})``, ``dict({...})``, ``frozendict({...})``)."""
+        def unwrap(v):
+            while isinstance(v, ast.Call) and len(v.args) == 1 and not v.keywords \
+                    and (dotted(v.func) or "").split(".")[-1] in ("MappingProxyType", "dict", "OrderedDict", "frozendict", "ChainMap"):
+                v = v.args[0]
+            return v if isinstance(v, ast.Dict) else None
+
+        if unwrap(e) is not None:
+            return unwrap(e)
         if isinstance(e, ast.Name):
-            v = fi.module.const_exprs.get(e.id)
-            if isinstance(v, ast.Dict):
+            v = unwrap(fi.module.const_exprs.get(e.id))
+            if v is not None:
                 return v
         if isinstance(e, ast.Attribute) and isinstance(e.value, ast.Name):
             if e.value.id in ("self", "cls") and fi.cls is not None:
                 for c in fi.cls.mro:
                     if e.attr in c.attrs:
-                        return c.attrs[e.attr] if isinstance(c.attrs[e.attr], ast.Dict) else None
+                        return unwrap(c.attrs[e.attr])
             kind, obj = self.resolve_dotted(fi.module, e.value.id, fi)
-            if kind == "class" and isinstance(obj.attrs.get(e.attr), ast.Dict):
-                return obj.attrs[e.attr]
-            if kind == "module" and isinstance(obj.const_exprs.get(e.attr), ast.Dict):
-                return obj.const_exprs[e.attr]
+            if kind == "class" and unwrap(obj.attrs.get(e.attr)) is not None:
+                return unwrap(obj.attrs[e.attr])
+            if kind == "module" and unwrap(obj.const_exprs.get(e.attr)) is not None:
+                return unwrap(obj.const_exprs[e.attr])
         return None
 
     def dict_dispatch_classes(self, fi: FuncInfo, call: ast.Call) -> List[ClassInfo]:
